@@ -1,6 +1,11 @@
 /-
 C19 — property theorems (statements, short proofs from the lemmas, non-vacuity examples).
 
+Boundary convention.  The store carries `grace` (Store.lean): 0 = miniredis (a key written with PX px at t is
+gone from t+px on), 1 = real Redis (gone from t+px+1 on).  Everything below is proved for every `grace`
+(`St.initG g` is the empty store with convention `g`); `lease_exact_miniredis_boundary` and
+`lease_exact_redis_boundary` spell the two instances out.
+
 Setting.  `cfg : Nat → LockCfg` gives every `RedisLock` instance (any number of them, `Nat` is unbounded)
 its key and its id.  `DistinctIds cfg` is the one assumption on the random 16-character ids: instances on
 the same key carry different ids.  A history is any list of `Op`s (`ft ms` clock advance, `acquire i`,
@@ -19,9 +24,14 @@ over every schedule; what is trusted is that Redis runs a script atomically.
 import Std.Data.String.ToNat
 import GoZero.C19.Refine
 import GoZero.C19.Schedule
+import GoZero.C19.Atomic
+import GoZero.C19.InjModel
 import GoZero.C19.Driver
 namespace GoZero.C19
 open Spec
+
+/-- three and more instances on one key, ids "a", "aa", "aaa", … -/
+def exCfg (i : Nat) : LockCfg := { key := "k", id := String.ofList (List.replicate (i + 1) 'a') }
 
 /-! ### Acquire -/
 
@@ -48,11 +58,13 @@ theorem acquire_effect (cfg : Nat → LockCfg) (st : St) (i : Nat) :
     have he := acquireWith_ent cfg st i (st.secs i) (cfg i).key
     simp only [hf, and_self, if_true] at he
     have hn := acquireWith_now cfg st i (st.secs i)
+    have hg := acquireWith_grace cfg st i (st.secs i)
     have hp := leaseMs_pos (st.secs i)
     have hl : leaseMs (st.secs i) = st.secs i * 1000 + 500 := rfl
-    simp only [acquire, St.view, Store.pttl, Store.live, he, hn, Entry.liveAt]
-    have : st.store.now < st.store.now + leaseMs (st.secs i) := by omega
-    simp [this, hl]
+    rw [hl] at he
+    simp only [acquire, St.view, Store.pttl, Store.live, he, hn, hg, Entry.liveAt]
+    have : st.store.now < st.store.now + (st.secs i * 1000 + 500) + st.store.grace := by omega
+    simp [this]
     omega
   · intro h
     have hf : ¬ freeFor st.store (cfg i).key (cfg i).id := fun c => by
@@ -67,17 +79,33 @@ theorem setExpire_configures_seconds (cfg : Nat → LockCfg) (st : St) (i : Nat)
   simp only [step, updN, if_true, toUint32]
   omega
 
-/-- **The lease lasts the configured seconds plus 500 ms — exactly.**  After a successful Acquire by `i`
-with `seconds = secs`, let the other instances do anything (acquire, release, set their expiry — on this
-key or others) and let the clock advance arbitrarily, `i` itself making no call: `i` is the holder of
-its key as long as the total advance is `< secs·1000 + 500`, and no longer from then on. -/
+/-- **The lease lasts the configured seconds plus 500 ms — exactly** (plus the store's boundary
+millisecond `grace`: 0 for miniredis, 1 for real Redis).  After a successful Acquire by `i` with
+`seconds = secs`, let the other instances do anything (acquire, release, set their expiry — on this key or
+others) and let the clock advance arbitrarily, `i` itself making no call: `i` is the holder of its key as
+long as the total advance is `< secs·1000 + 500 + grace`, and no longer from then on. -/
 theorem lease_is_seconds_plus_500ms (cfg : Nat → LockCfg) (hd : DistinctIds cfg) (st : St) (i secs : Nat)
     (h : (acquireWith cfg st i secs).2 = true) (ops : List Op) (hq : ∀ op ∈ ops, quietFor i op = true) :
-    holds cfg (run cfg (acquireWith cfg st i secs).1 ops) i ↔ elapsed ops < secs * 1000 + 500 := by
+    holds cfg (run cfg (acquireWith cfg st i secs).1 ops) i ↔ elapsed ops < secs * 1000 + 500 + st.store.grace := by
   have hinv := leaseInv_run cfg hd i _ ops _ hq (leaseInv_after_acquire cfg st i secs h)
   rw [leaseInv_holds_iff cfg i _ _ hinv, run_now, acquireWith_now]
   have : leaseMs secs = secs * 1000 + 500 := rfl
   omega
+
+/-- the miniredis convention (`grace = 0`, the one the correspondence run validates): exactly `seconds·1000+500` ms -/
+theorem lease_exact_miniredis_boundary (cfg : Nat → LockCfg) (hd : DistinctIds cfg) (st : St) (i secs : Nat)
+    (hg : st.store.grace = 0)
+    (h : (acquireWith cfg st i secs).2 = true) (ops : List Op) (hq : ∀ op ∈ ops, quietFor i op = true) :
+    holds cfg (run cfg (acquireWith cfg st i secs).1 ops) i ↔ elapsed ops < secs * 1000 + 500 := by
+  rw [lease_is_seconds_plus_500ms cfg hd st i secs h ops hq, hg]
+
+/-- the real-Redis convention (`grace = 1`: a key is still there in the millisecond its TTL reaches 0): the
+holder keeps the key for `seconds·1000+500` ms *and* the boundary millisecond — never less than promised. -/
+theorem lease_exact_redis_boundary (cfg : Nat → LockCfg) (hd : DistinctIds cfg) (st : St) (i secs : Nat)
+    (hg : st.store.grace = 1)
+    (h : (acquireWith cfg st i secs).2 = true) (ops : List Op) (hq : ∀ op ∈ ops, quietFor i op = true) :
+    holds cfg (run cfg (acquireWith cfg st i secs).1 ops) i ↔ elapsed ops ≤ secs * 1000 + 500 := by
+  rw [lease_is_seconds_plus_500ms cfg hd st i secs h ops hq, hg]; omega
 
 /-- while an instance holds a key, every other instance's Acquire on that key is refused and every other
 instance's Release reports false — and neither changes anything (state equality). -/
@@ -105,11 +133,11 @@ theorem others_refused_while_held (cfg : Nat → LockCfg) (hd : DistinctIds cfg)
 give every caller the belief the property promises (after `Acquire = true` at time `t`: "the lock is mine
 until `t + seconds·1000 + 500`", dropped on `Release`).  At every moment, two different instances on the
 same key never both believe to hold it. -/
-theorem at_most_one_holder (cfg : Nat → LockCfg) (hd : DistinctIds cfg) (ops : List Op) (i j : Nat)
+theorem at_most_one_holder (g : Nat) (cfg : Nat → LockCfg) (hd : DistinctIds cfg) (ops : List Op) (i j : Nat)
     (hij : i ≠ j) (hk : (cfg i).key = (cfg j).key) :
-    ¬ (believes (grun cfg St.init Belief.none ops).2 (grun cfg St.init Belief.none ops).1.store.now i = true ∧
-       believes (grun cfg St.init Belief.none ops).2 (grun cfg St.init Belief.none ops).1.store.now j = true) := by
-  have hinv := beliefInv_grun cfg hd ops St.init Belief.none (by intro i u hb; simp [Belief.none] at hb)
+    ¬ (believes (grun cfg (St.initG g) Belief.none ops).2 (grun cfg (St.initG g) Belief.none ops).1.store.now i = true ∧
+       believes (grun cfg (St.initG g) Belief.none ops).2 (grun cfg (St.initG g) Belief.none ops).1.store.now j = true) := by
+  have hinv := beliefInv_grun cfg hd ops (St.initG g) Belief.none (by intro i u hb; simp [Belief.none] at hb)
   intro ⟨h1, h2⟩
   have g1 := believes_holds cfg _ _ hinv i h1
   have g2 := believes_holds cfg _ _ hinv j h2
@@ -119,10 +147,10 @@ theorem at_most_one_holder (cfg : Nat → LockCfg) (hd : DistinctIds cfg) (ops :
   exact hij (hd i j hk g1.symm)
 
 /-- the belief is sound: whoever believes to hold the key is the holder in Redis (same histories). -/
-theorem believer_is_holder (cfg : Nat → LockCfg) (hd : DistinctIds cfg) (ops : List Op) (i : Nat)
-    (hb : believes (grun cfg St.init Belief.none ops).2 (grun cfg St.init Belief.none ops).1.store.now i = true) :
-    holds cfg (run cfg St.init ops) i := by
-  have hinv := beliefInv_grun cfg hd ops St.init Belief.none (by intro i u hb; simp [Belief.none] at hb)
+theorem believer_is_holder (g : Nat) (cfg : Nat → LockCfg) (hd : DistinctIds cfg) (ops : List Op) (i : Nat)
+    (hb : believes (grun cfg (St.initG g) Belief.none ops).2 (grun cfg (St.initG g) Belief.none ops).1.store.now i = true) :
+    holds cfg (run cfg (St.initG g) ops) i := by
+  have hinv := beliefInv_grun cfg hd ops (St.initG g) Belief.none (by intro i u hb; simp [Belief.none] at hb)
   have := believes_holds cfg _ _ hinv i hb
   rwa [grun_fst] at this
 
@@ -153,11 +181,11 @@ theorem release_only_by_holder (cfg : Nat → LockCfg) (st : St) (i : Nat) :
     rw [release_ent]; simp [hk]
 
 /-- **A late release by an expired holder never frees a lock that has since been taken by someone else.**
-`a` acquires; the clock runs past `a`'s lease (`d ≥ seconds_a·1000 + 500`); `b` acquires — and gets the
+`a` acquires; the clock runs past `a`'s lease (`d ≥ seconds_a·1000 + 500 + grace`); `b` acquires — and gets the
 lock; `a` releases: reports false, and `b` still holds the key with its full lease. -/
 theorem late_release_harmless (cfg : Nat → LockCfg) (hd : DistinctIds cfg) (st : St) (a b d : Nat)
     (hab : a ≠ b) (hk : (cfg a).key = (cfg b).key) (ha : (acquire cfg st a).2 = true)
-    (hd' : st.secs a * 1000 + 500 ≤ d) :
+    (hd' : st.secs a * 1000 + 500 + st.store.grace ≤ d) :
     let st1 := (acquire cfg st a).1
     let st2 := (step cfg st1 (.ft d)).1
     let st3 := (acquire cfg st2 b).1
@@ -165,7 +193,7 @@ theorem late_release_harmless (cfg : Nat → LockCfg) (hd : DistinctIds cfg) (st
       st3.view (cfg b).key = some ((cfg b).id, ((st.secs b * 1000 + 500 : Nat) : Int)) := by
   intro st1 st2 st3
   have hf := (acquireWith_result cfg st a (st.secs a)).1 ha
-  have he : st1.store.ent (cfg a).key = some ⟨(cfg a).id, some (st.store.now + leaseMs (st.secs a))⟩ := by
+  have he : st1.store.ent (cfg a).key = some ⟨(cfg a).id, some (st.store.now + leaseMs (st.secs a) + st.store.grace)⟩ := by
     have := acquireWith_ent cfg st a (st.secs a) (cfg a).key
     simp only [hf, and_self, if_true] at this
     exact this
@@ -173,7 +201,7 @@ theorem late_release_harmless (cfg : Nat → LockCfg) (hd : DistinctIds cfg) (st
   have hl : leaseMs (st.secs a) = st.secs a * 1000 + 500 := rfl
   have hg2 : st2.store.get (cfg b).key = none := by
     rw [← hk]
-    have he2 : st2.store.ent (cfg a).key = some ⟨(cfg a).id, some (st.store.now + leaseMs (st.secs a))⟩ := he
+    have he2 : st2.store.ent (cfg a).key = some ⟨(cfg a).id, some (st.store.now + leaseMs (st.secs a) + st.store.grace)⟩ := he
     exact get_of_ent_dead he2 (by show _ ≤ st1.store.now + d; omega)
   have hw := acquire_free_wins cfg st2 b hg2
   have hsecs : st2.secs b = st.secs b := rfl
@@ -214,8 +242,8 @@ theorem concurrent_acquires_free_key (cfg : Nat → LockCfg) (st : St) (j : Nat)
 /-- **Every schedule is a history.**  Let any number of goroutines run Acquire / Release / SetExpire calls,
 interleaved at their atomic steps (load of `seconds`, script run, store of `seconds`; clock moving in
 between): the shared state reached is the state of the history of its script runs and stores. -/
-theorem every_schedule_is_a_history (cfg : Nat → LockCfg) (ops : List Op) (c : Conc)
-    (h : Exec cfg Conc.init ops c) : c.st = run cfg St.init ops :=
+theorem every_schedule_is_a_history (g : Nat) (cfg : Nat → LockCfg) (ops : List Op) (c : Conc)
+    (h : Exec cfg (Conc.initG g) ops c) : c.st = run cfg (St.initG g) ops :=
   exec_is_history cfg h
 
 /-- the lease theorem read over schedules: once `i`'s script run has succeeded, whatever any other
@@ -223,32 +251,196 @@ goroutines do in whatever interleaving, `i` holds exactly while less than `secon
 theorem lease_under_every_schedule (cfg : Nat → LockCfg) (hd : DistinctIds cfg) (st0 : St) (i secs : Nat)
     (h : (acquireWith cfg st0 i secs).2 = true) (c c' : Conc) (hc : c.st = (acquireWith cfg st0 i secs).1)
     (ops : List Op) (he : Exec cfg c ops c') (hq : ∀ op ∈ ops, quietFor i op = true) :
-    holds cfg c'.st i ↔ elapsed ops < secs * 1000 + 500 := by
+    holds cfg c'.st i ↔ elapsed ops < secs * 1000 + 500 + st0.store.grace := by
   rw [exec_is_history cfg he, hc]
   exact lease_is_seconds_plus_500ms cfg hd st0 i secs h ops hq
 
 /-- in every configuration any schedule can reach, the callers' beliefs are exclusive. -/
-theorem at_most_one_holder_under_every_schedule (cfg : Nat → LockCfg) (hd : DistinctIds cfg) (ops : List Op)
-    (c : Conc) (h : Exec cfg Conc.init ops c) (i j : Nat) (hij : i ≠ j) (hk : (cfg i).key = (cfg j).key) :
-    ¬ (believes (grun cfg St.init Belief.none ops).2 c.st.store.now i = true ∧
-       believes (grun cfg St.init Belief.none ops).2 c.st.store.now j = true) := by
-  have := at_most_one_holder cfg hd ops i j hij hk
+theorem at_most_one_holder_under_every_schedule (g : Nat) (cfg : Nat → LockCfg) (hd : DistinctIds cfg) (ops : List Op)
+    (c : Conc) (h : Exec cfg (Conc.initG g) ops c) (i j : Nat) (hij : i ≠ j) (hk : (cfg i).key = (cfg j).key) :
+    ¬ (believes (grun cfg (St.initG g) Belief.none ops).2 c.st.store.now i = true ∧
+       believes (grun cfg (St.initG g) Belief.none ops).2 c.st.store.now j = true) := by
+  have := at_most_one_holder g cfg hd ops i j hij hk
   rw [grun_fst] at this
-  rw [every_schedule_is_a_history cfg ops c h]
+  rw [every_schedule_is_a_history g cfg ops c h]
   exact this
+
+/-! ### Schedules at the granularity of Redis round trips (Cmds.lean / Atomic.lean)
+
+A call is a program of round trips; between any two round trips of one call, any other goroutine may
+perform round trips of its own calls, `SetExpire` may store and the Redis clock may move (`Act`, `cstep`).
+Atomic = one round trip: one script execution.  A call that sends several commands is several steps. -/
+
+/-- **Every Acquire / Release of the code that exists is ONE atomic store step**: whichever instance,
+whatever `seconds` it loaded, whether or not the script is cached in Redis, the call executes exactly one
+command on the store — the script — (possibly after an EVALSHA that Redis refused with NOSCRIPT without
+executing anything) and returns what it decodes from that single reply.  (Tie: `tie_acquireStoreCalls`,
+`tie_releaseStoreCalls`, `tie_scriptRunCtx` — exactly one `ScriptRunCtx` and no other store call in each.) -/
+theorem every_call_is_one_atomic_store_step (cfg : Nat → LockCfg) (cached : Bool) (call : Call) :
+    OneStoreStep (real.start cfg cached call) :=
+  real_start_oneStoreStep cfg cached call
+
+/-- … and that one round trip *is* the model's atomic operation: in every configuration reachable by any
+schedule, when a thread's executing round trip happens the shared state makes exactly `step … call.op` and
+the value the call will return is the model's result of that step. -/
+theorem call_takes_effect_at_its_store_step (g : Nat) (cfg : Nat → LockCfg) (acts : List Act) (c : CConc)
+    (h : crun real cfg (CConc.initG g) acts = some c) (t : Nat) (th : Thread) (hth : c.thr t = some th)
+    (cm : Cmd) (k : Reply → Prog) (hp : th.prog = .cmd cm k) (hs : cm.isStoreStep = true) :
+    cstep real cfg c (.cmd t) =
+      some ({ st := (step cfg c.st th.call.op).1,
+              thr := updT c.thr t (some { th with prog := .done (step cfg c.st th.call.op).2 }) }, none) :=
+  real_store_step cfg c (real_exec_history cfg acts _ _ (realInv_init cfg (St.initG g)) h).1 t th hth cm k hp hs
+
+/-- **Every schedule of round trips is a history of atomic operations.**  Any number of goroutines, their
+calls interleaved round trip by round trip with clock advances and SetExpire stores in between: the shared
+state reached is `run` of the history `chist` (script runs as `acquireS i loaded` / `release i`, stores, clock). -/
+theorem every_command_schedule_is_a_history (g : Nat) (cfg : Nat → LockCfg) (acts : List Act) (c : CConc)
+    (h : crun real cfg (CConc.initG g) acts = some c) :
+    c.st = run cfg (St.initG g) (chist real cfg (CConc.initG g) acts) :=
+  (real_exec_history cfg acts _ _ (realInv_init cfg (St.initG g)) h).2
+
+/-- so the exclusivity of beliefs holds in every configuration any round-trip schedule can reach -/
+theorem at_most_one_holder_under_every_command_schedule (g : Nat) (cfg : Nat → LockCfg) (hd : DistinctIds cfg)
+    (acts : List Act) (c : CConc) (h : crun real cfg (CConc.initG g) acts = some c) (i j : Nat) (hij : i ≠ j)
+    (hk : (cfg i).key = (cfg j).key) :
+    ¬ (believes (grun cfg (St.initG g) Belief.none (chist real cfg (CConc.initG g) acts)).2 c.st.store.now i = true ∧
+       believes (grun cfg (St.initG g) Belief.none (chist real cfg (CConc.initG g) acts)).2 c.st.store.now j = true) := by
+  have := at_most_one_holder g cfg hd (chist real cfg (CConc.initG g) acts) i j hij hk
+  rw [grun_fst] at this
+  rw [every_command_schedule_is_a_history g cfg acts c h]
+  exact this
+
+/-- **Release by a non-holder, under every schedule**: whatever happened between the moment goroutine `t`
+entered `Release` of instance `a` and the moment its round trip reaches Redis — `a`'s lease ran out, `b`
+acquired — if `b` holds the key at that moment the round trip changes nothing and the call returns false. -/
+theorem release_in_any_schedule_never_frees_anothers_lock (g : Nat) (cfg : Nat → LockCfg) (hd : DistinctIds cfg)
+    (acts : List Act) (c : CConc) (h : crun real cfg (CConc.initG g) acts = some c) (t a b : Nat) (th : Thread)
+    (hth : c.thr t = some th) (hcall : th.call = .rel a) (cm : Cmd) (k : Reply → Prog)
+    (hp : th.prog = .cmd cm k) (hs : cm.isStoreStep = true)
+    (hab : a ≠ b) (hk : (cfg a).key = (cfg b).key) (hb : holds cfg c.st b) :
+    cstep real cfg c (.cmd t) =
+      some ({ st := c.st, thr := updT c.thr t (some { th with prog := .done false }) }, none) := by
+  rw [call_takes_effect_at_its_store_step g cfg acts c h t th hth cm k hp hs, hcall]
+  have hh := release_by_non_holder_harmless cfg hd c.st a b hab hk hb
+  have e : step cfg c.st (Call.rel a).op = release cfg c.st a := rfl
+  rw [e, hh.1, hh.2]
+
+/-- **what the driver computes for an `inj` line is a sequential history.**  `runInj real` — thread 0 enters the
+call (Acquire loads `seconds`), thread 1 runs the bracketed operations before thread 0's `p`-th round trip —
+equals: all bracketed operations, then the call's one atomic step (if the call really makes a `p`-th round
+trip: `p ≤ 1`, or `p ≤ 2` when the script is not cached), otherwise the call's step first and the bracketed
+operations after it.  These are the placements "call last" / "call first" of the linearizability monitor. -/
+theorem inj_schedule_of_real_code_is_sequential (cfg : Nat → LockCfg) (st : St) (outer : Op)
+    (ho : isCall outer = true) (cached : Bool) (p : Nat) (hp : 1 ≤ p) (inner : List Op)
+    (hs : ∀ op ∈ inner, isSimple op = true) :
+    (p ≤ realTrips cached →
+      (runInj real cfg st outer cached p inner).fired = some p ∧
+      (runInj real cfg st outer cached p inner).inner = results cfg st inner ∧
+      (runInj real cfg st outer cached p inner).outer = (step cfg (run cfg st inner) (callOf st outer).op).2 ∧
+      (runInj real cfg st outer cached p inner).st = (step cfg (run cfg st inner) (callOf st outer).op).1) ∧
+    (realTrips cached < p →
+      (runInj real cfg st outer cached p inner).fired = none ∧
+      (runInj real cfg st outer cached p inner).outer = (step cfg st (callOf st outer).op).2 ∧
+      (runInj real cfg st outer cached p inner).inner = results cfg (step cfg st (callOf st outer).op).1 inner ∧
+      (runInj real cfg st outer cached p inner).st = run cfg (step cfg st (callOf st outer).op).1 inner) := by
+  rw [runInj_eq_injFrom cfg st outer ho cached p inner]
+  exact injFrom_real cfg st (callOf st outer) cached p hp inner hs _ rfl
+
+/-- the schedule the property's last sentence is about, against a Release that checks (GET) and deletes
+(DEL) in two round trips: 0 acquires at time 0 (lease 500 ms); 0 enters Release, its GET sees its own id;
+the clock reaches 500, the lease is gone; 1 acquires — granted until 1000; 0's DEL arrives. -/
+def lateDelSchedule : List Act :=
+  [.acquire 0 0 true, .cmd 0, .ret 0, .release 0 0 true, .cmd 0, .ft 500, .acquire 1 1 true, .cmd 1, .ret 1,
+   .cmd 0, .ret 0]
+
+/-- **the semantics exhibits the failure of the non-atomic class** (witness): with Release = GET then DEL,
+in `lateDelSchedule` instance 1 is granted the lock at time 500 for 500 ms, instance 0's Release then
+reports true, and at time 500 the key is free although 1's lease runs until 1000. -/
+theorem get_then_del_release_frees_anothers_lock :
+    crets getThenDel exCfg CConc.init lateDelSchedule =
+      [⟨0, .acq 0 0, true⟩, ⟨1, .acq 1 0, true⟩, ⟨0, .rel 0, true⟩] ∧
+    (crun getThenDel exCfg CConc.init lateDelSchedule).map (fun c => (c.st.store.now, c.st.store.get "k")) =
+      some (500, none) := by
+  decide
+
+/-- the corresponding schedule of the code that exists (Release has a single round trip, so the expiry and
+1's Acquire fall between entering Release and that round trip) -/
+def lateScriptSchedule : List Act :=
+  [.acquire 0 0 true, .cmd 0, .ret 0, .release 0 0 true, .ft 500, .acquire 1 1 true, .cmd 1, .ret 1, .cmd 0, .ret 0]
+
+/-- … there 0's Release reports false and 1 keeps the lock. -/
+theorem script_release_late_schedule_is_harmless :
+    crets real exCfg CConc.init lateScriptSchedule =
+      [⟨0, .acq 0 0, true⟩, ⟨1, .acq 1 0, true⟩, ⟨0, .rel 0, false⟩] ∧
+    (crun real exCfg CConc.init lateScriptSchedule).map (fun c => (c.st.store.now, c.st.store.get "k")) =
+      some (500, some "aa") := by
+  decide
+
+/-- witness for the acquire side of the class (GET, then SET if absent or mine): two goroutines both read
+"absent" and both write — both Acquire calls report true at the same instant. -/
+theorem get_then_set_acquire_two_holders :
+    crets getThenSet exCfg CConc.init
+      [.acquire 0 0 true, .acquire 1 1 true, .cmd 0, .cmd 1, .cmd 0, .cmd 1, .ret 0, .ret 1] =
+      [⟨0, .acq 0 0, true⟩, ⟨1, .acq 1 0, true⟩] := by
+  decide
+
+/-! ### Lost replies and the caller's clock -/
+
+/-- **a reply lost after the script ran**: the caller saw an error, but Redis holds its id.  Whatever the
+caller thinks, its next calls act on what Redis has: its Release frees the key (true) and its Acquire
+refreshes the lease (true). -/
+theorem after_lost_reply_own_calls_work (cfg : Nat → LockCfg) (st : St) (i secs : Nat)
+    (h : (acquireWith cfg st i secs).2 = true) :
+    (release cfg (acquireWith cfg st i secs).1 i).2 = true ∧ (acquire cfg (acquireWith cfg st i secs).1 i).2 = true := by
+  have hinv := leaseInv_after_acquire cfg st i secs h
+  have hh : holds cfg (acquireWith cfg st i secs).1 i := by
+    rw [leaseInv_holds_iff cfg i _ _ hinv, acquireWith_now]
+    have := leaseMs_pos secs; omega
+  exact ⟨(release_result cfg _ i).2 hh, (acquire_iff_free_or_own cfg _ i).2 (Or.inr hh)⟩
+
+/-- **the lease is measured on Redis' clock from the script run; a caller that counts from the moment it
+STARTED the call is safe.**  If the call was entered at Redis time `t0` (so `t0 ≤` the time of the script
+run, the clock never goes back) then, whatever the others do, as long as the Redis clock is before
+`t0 + seconds·1000 + 500` the caller is the holder. -/
+theorem lease_counted_from_call_start (cfg : Nat → LockCfg) (hd : DistinctIds cfg) (st : St) (i secs t0 : Nat)
+    (h : (acquireWith cfg st i secs).2 = true) (ht0 : t0 ≤ st.store.now) (ops : List Op)
+    (hq : ∀ op ∈ ops, quietFor i op = true)
+    (hnow : (run cfg (acquireWith cfg st i secs).1 ops).store.now < t0 + (secs * 1000 + 500)) :
+    holds cfg (run cfg (acquireWith cfg st i secs).1 ops) i := by
+  rw [lease_is_seconds_plus_500ms cfg hd st i secs h ops hq]
+  rw [run_now, acquireWith_now] at hnow
+  omega
+
+/-! ### How much `DistinctIds` assumes
+
+`NewRedisLock` draws the id with `stringx.Randn(16)`: 16 characters, each one of 62 (Tie: `tie_randomLen`,
+`tie_idAlphabet`, `tie_randnBody`).  If the characters are uniform and independent, two given instances carry
+the same id with probability `62⁻¹⁶`, and among `n` instances some pair collides with probability at most
+`n(n-1)/2 · 62⁻¹⁶` (union bound).  The two theorems evaluate that: the id space, and "up to a million
+instances: below 10⁻¹⁶".  What is *not* covered: `stringx` seeds `math/rand` with the start time in
+nanoseconds — two processes started in the same nanosecond draw the same ids (assumption, props/C19.json). -/
+
+theorem id_space : 62 ^ 16 = 47672401706823533450263330816 := by decide
+
+/-- `n ≤ 10⁶` instances: (number of pairs) · 10¹⁶ ≤ 62¹⁶, i.e. collision probability ≤ 10⁻¹⁶ -/
+theorem id_collision_union_bound (n : Nat) (hn : n ≤ 1000000) : n * (n - 1) / 2 * 10 ^ 16 ≤ 62 ^ 16 := by
+  have h1 : n * (n - 1) ≤ 1000000 * 1000000 := Nat.mul_le_mul hn (by omega)
+  have h2 : n * (n - 1) / 2 ≤ 1000000 * 1000000 / 2 := Nat.div_le_div_right h1
+  calc n * (n - 1) / 2 * 10 ^ 16 ≤ 1000000 * 1000000 / 2 * 10 ^ 16 := Nat.mul_le_mul_right _ h2
+    _ ≤ 62 ^ 16 := by decide
 
 /-! ### The whole model is the lease table of the specification -/
 
 /-- for every history from the empty store, the Redis-level model (Lua scripts over the store) returns
 the same results as the abstract lease table of `Spec` and shows the same (holder, remaining ms) per key. -/
-theorem model_refines_lease_table (cfg : Nat → LockCfg) (ops : List Op) :
-    Spec.results cfg ASt.init ops = results cfg St.init ops ∧
-    ∀ k, (Spec.run cfg ASt.init ops).view k = (run cfg St.init ops).view k := by
-  have h0 : abs St.init = ASt.init := by
+theorem model_refines_lease_table (g : Nat) (cfg : Nat → LockCfg) (ops : List Op) :
+    Spec.results cfg (ASt.initG g) ops = results cfg (St.initG g) ops ∧
+    ∀ k, (Spec.run cfg (ASt.initG g) ops).view k = (run cfg (St.initG g) ops).view k := by
+  have h0 : abs (St.initG g) = (ASt.initG g) := by
     apply ASt.ext' <;> intros <;> rfl
-  have hr := run_refines cfg ops St.init hasTTL_init
+  have hr := run_refines cfg ops (St.initG g) (hasTTL_initG g)
   rw [h0] at hr
-  refine ⟨by rw [← h0]; exact results_refine cfg ops St.init hasTTL_init, ?_⟩
+  refine ⟨by rw [← h0]; exact results_refine cfg ops (St.initG g) (hasTTL_initG g), ?_⟩
   intro k
   rw [hr.1]
   exact abs_view _ hr.2 k
@@ -258,11 +450,11 @@ theorem model_refines_lease_table (cfg : Nat → LockCfg) (ops : List Op) :
 /-- the result monitor (`Spec.explain`, the property's wording of a wrong result) never fires on a result
 the model produces, from any state reachable by lock operations: a MONITOR line can only come from the
 implementation deviating from the model. -/
-theorem monitor_silent_on_model (cfg : Nat → LockCfg) (ops : List Op) (op : Op) :
-    Spec.explain cfg (Spec.run cfg ASt.init ops) op (step cfg (run cfg St.init ops) op).2 = none := by
-  have h0 : abs St.init = ASt.init := by
+theorem monitor_silent_on_model (g : Nat) (cfg : Nat → LockCfg) (ops : List Op) (op : Op) :
+    Spec.explain cfg (Spec.run cfg (ASt.initG g) ops) op (step cfg (run cfg (St.initG g) ops) op).2 = none := by
+  have h0 : abs (St.initG g) = (ASt.initG g) := by
     apply ASt.ext' <;> intros <;> rfl
-  have hr := run_refines cfg ops St.init hasTTL_init
+  have hr := run_refines cfg ops (St.initG g) (hasTTL_initG g)
   rw [h0] at hr
   unfold Spec.explain
   rw [hr.1, step_refines cfg _ op hr.2]
@@ -278,8 +470,6 @@ theorem driver_cfg_distinct_ids (nkeys : Nat) : DistinctIds (mkCfg nkeys) := by
 
 /-! ### non-vacuity: concrete instances of the hypotheses and of the scenarios -/
 
-/-- three and more instances on one key, ids "a", "aa", "aaa", … -/
-def exCfg (i : Nat) : LockCfg := { key := "k", id := String.ofList (List.replicate (i + 1) 'a') }
 
 example : DistinctIds exCfg := by
   intro i j _ h
@@ -293,6 +483,16 @@ example : results exCfg St.init
     = [true, true, false, true, false, true, true, false, true] := by decide
 
 example : (run exCfg St.init [.setExpire 0 2, .acquire 0, .ft 100]).view "k" = some ("a", 2400) := by decide
+
+-- the real-Redis boundary (`grace = 1`): the competitor is still refused at 2500 ms and granted at 2501 ms;
+-- PTTL shows the same numbers
+example : results exCfg (St.initG 1)
+    [.setExpire 0 2, .acquire 0, .acquire 1, .ft 2500, .acquire 1, .ft 1, .acquire 1, .release 0, .release 1]
+    = [true, true, false, true, false, true, true, false, true] := by decide
+
+example : (run exCfg (St.initG 1) [.setExpire 0 2, .acquire 0, .ft 100]).view "k" = some ("a", 2400) := by decide
+
+example : (St.initG 1).store.grace = 1 ∧ (acquireWith exCfg (St.initG 1) 0 3).2 = true := by decide
 
 -- hypotheses of `lease_is_seconds_plus_500ms` / `late_release_harmless` are satisfiable
 example : (acquireWith exCfg St.init 0 3).2 = true ∧
@@ -318,6 +518,20 @@ example : Exec exCfg
 
 -- a burst of five attempts (instance 2 twice): only instance 2, whose script ran first, wins
 example : winners exCfg St.init [2, 0, 1, 2, 3] = [2, 2] := by decide
+
+-- `inj 2 release 0 [ft 500 ; acquire 1]` on the code that exists, script not cached (EVALSHA→NOSCRIPT, EVAL): the
+-- block falls between the two round trips, i.e. before the script run — Release reports false, 1 holds
+example : let r := runInj real exCfg (run exCfg St.init [.acquire 0]) (.release 0) false 2 [.ft 500, .acquire 1]
+    (r.fired, r.outer, r.inner, r.ncmds, r.st.store.get "k") = (some 2, false, [true, true], 2, some "aa") := by decide
+
+-- counting the lease from the moment the call RETURNED is unsound: the script ran at time 0, the reply
+-- arrived at 400; "mine until 400+500" is wrong from 500 on
+example : ¬ holds exCfg (run exCfg St.init [.acquireS 0 0, .ft 400, .ft 100]) 0 := by decide
+
+-- hypotheses of `release_in_any_schedule_never_frees_anothers_lock` are satisfiable: after the first eight
+-- steps of `lateScriptSchedule` thread 0 is inside Release with its script run pending and instance 1 holds
+example : (crun real exCfg CConc.init (lateScriptSchedule.take 8)).map (fun c => (pending c 0, decide (holds exCfg c.st 1)))
+    = some (true, true) := by decide
 
 -- beliefs: after A's lease ran out and B acquired, only B believes
 example : (believes (grun exCfg St.init Belief.none [.acquire 0, .ft 500, .acquire 1]).2 500 0,
